@@ -1041,6 +1041,7 @@ func protoProbes(cw *cq.Writer, w *World, c *pconv, lin *lineage, rng *rand.Rand
 	var contDisk *mdisk
 	contCut := 0
 	contPick := -1
+	contAt := -1
 	if mode == "c03" && len(points) > 0 {
 		contPick = rng.Intn(len(points))
 	}
@@ -1058,6 +1059,11 @@ func protoProbes(cw *cq.Writer, w *World, c *pconv, lin *lineage, rng *rand.Rand
 			for v := 0; v < nv; v++ {
 				ch := make([]tornChoice, len(d.fly))
 				for i, f := range d.fly {
+					if f.snp && mode == "c03" && rng.Intn(3) == 0 && len(f.bytes) > 6 {
+						// the body may still decode while the checksum trailer is cut
+						ch[i] = tornChoice{Kind: "prefix", Len: len(f.bytes) - 1 - rng.Intn(5)}
+						continue
+					}
 					switch r := rng.Intn(8); {
 					case r == 0:
 						ch[i] = tornChoice{Kind: "absent"}
@@ -1149,8 +1155,9 @@ func protoProbes(cw *cq.Writer, w *World, c *pconv, lin *lineage, rng *rand.Rand
 				if !res.RFail && !sameDV(res.RContent, res.WContent) && res.REpoch == res.WEpoch {
 					cw.OracleFail("reader-and-writer-recover-differently", "same epoch, different content", pdesc)
 				}
-				if pi == contPick && vi == 0 && best >= 0 {
+				if best >= 0 && (pi == contPick && vi == 0 || (mode == "c03" && contImage == nil && tailCut(d, ch) && rng.Intn(2) == 0)) {
 					contImage, contDisk, contCut = files, next, best
+					contAt = at
 				}
 			}
 		}
@@ -1220,12 +1227,10 @@ func protoProbes(cw *cq.Writer, w *World, c *pconv, lin *lineage, rng *rand.Rand
 		// acknowledged batches that must survive further crashes
 		maxAck := lin.ackedPrefix - 1
 		// everything acknowledged before the chosen crash point and within the recovered prefix
-		for i, at := range points {
-			if i == contPick {
-				for _, k := range c.ackedAt[at] {
-					if p, ok := posOf[k]; ok && p > maxAck {
-						maxAck = p
-					}
+		if contAt >= 0 {
+			for _, k := range c.ackedAt[contAt] {
+				if p, ok := posOf[k]; ok && p > maxAck {
+					maxAck = p
 				}
 			}
 		}
@@ -1285,4 +1290,14 @@ func checkFaultSurfacing(cw *cq.Writer, w *World, c *pconv, desc map[string]inte
 		}
 	}
 	cw.Count("failed_persist_rounds", failedRounds)
+}
+
+// tailCut: some in-flight snapshot is left with only its last few bytes missing.
+func tailCut(d *mdisk, ch []tornChoice) bool {
+	for i, f := range d.fly {
+		if f.snp && i < len(ch) && ch[i].Kind == "prefix" && ch[i].Len >= len(f.bytes)-5 && ch[i].Len < len(f.bytes) {
+			return true
+		}
+	}
+	return false
 }
